@@ -147,7 +147,7 @@ Ctor(st0, bp, s) ==
     LET d == Sec(bp, s)
         st == BaseSector(st0, bp, s)
         k == d.kind
-    IN CASE k = "ConsolidatedGovernment" ->
+    IN CASE k \in {"ConsolidatedGovernment", "DoNothingGovernment"} ->   \* DoNothingGovernment: a subclass that adds nothing
               SetVar(SetVar(GovCore(st, s), s, "FISC_BAL", DVar(<< s, "INC" >>)), s, "T", DConst0)
          [] k = "GoldStandardGovernment" ->
               SetVar(SetVar(GovCore(st, s), s, "FISC_BAL", DVar(<< s, "INC" >>)), s, "T", DConst0)
